@@ -1,6 +1,6 @@
 (* C10 — concurrent use is deadlock-free (and every call returns) as far as the locking discipline goes. *)
 From Coq Require Import List Arith Bool.
-From Syz Require Import LockTable Conc ConcProofs.
+From Syz Require Import LockTable Conc ConcProofs ConcSafety.
 Import ListNotations.
 
 (* the lock table regenerated from the Go sources on this very run satisfies the discipline: on every
@@ -33,6 +33,15 @@ Print Assumptions C10_every_call_returns.
 Theorem C10_completion : forall ps, forallb (wrb []) ps = true -> exists sched, done (run_sched (start ps) sched) = true.
 Proof. intros ps H. apply (all_calls_return (measure (start ps))); [apply le_n | apply start_inv; exact H]. Qed.
 Print Assumptions C10_completion.
+
+(* safety of the same semantics: in every state reachable under any schedule, a mutex has at most one exclusive
+   holder and an exclusive holder excludes every shared holder.  Since mutators hold Collection.mutex exclusively
+   for their whole body and every other public method holds it shared (C10_table), the critical sections of one
+   collection are serialisable in the order in which they obtain the mutex, and read-only sections commute *)
+Theorem C10_mutual_exclusion : forall sched ps m,
+  cnt W m (run_sched (start ps) sched) <= 1 /\ (cnt W m (run_sched (start ps) sched) = 1 -> cnt R m (run_sched (start ps) sched) = 0).
+Proof. exact reachable_mutex_ok. Qed.
+Print Assumptions C10_mutual_exclusion.
 
 (* the pinned tree's ComputeStats as a model-level fact: a reader that re-acquires the read lock, a writer
    queued in between: nobody can move *)
